@@ -414,6 +414,9 @@ func convertToFloat(unknown any) (float64, bool) {
 	floatType := reflect.TypeOf(float64(0))
 	v := reflect.ValueOf(unknown)
 	v = reflect.Indirect(v)
+	if !v.IsValid() {
+		return 0, false
+	}
 	if !v.Type().ConvertibleTo(floatType) {
 		return 0, false
 	}
